@@ -16,7 +16,7 @@ LEVEL = "exploration"
 RULE = ("random lattice arrays (multiples of 1/8, zeros, negatives) for the ten arithmetic commands, every int64/float64 assignment "
         "for n<=4 inputs (sampled for 5), input orders permuted, weights int/float/mixed; plus single-fault cases (shape, weight count, "
         "empty list); distinct by (command, n, dtype assignment, mask classes, param kinds, fault kind)")
-REQUIRED_COUNTERS = ["ref_postconditions", "order_checks", "fault_checks", "zero_divisor_cells", "zero_weight_sum_cases", "repeated_field_cases"]
+REQUIRED_COUNTERS = ["ref_postconditions", "order_checks", "fault_checks", "zero_divisor_cells", "zero_weight_sum_cases", "repeated_field_cases", "later_command_checks"]
 ASSUMPTIONS = ["reference models in mpv/ref.py", "int64 overflow and NaN/inf inputs are never generated", "result dtype is not judged"]
 
 COMMUTATIVE = ("Sum", "Multiply", "Minimum", "Maximum", "Mean", "WeightedSum", "WeightedMean")
@@ -74,6 +74,8 @@ def _gen(rng, cmd, n, dts):
             params["Weights"] = params["Weights"] + [0] * (n - len(params["Weights"]))
         if sum(params["Weights"]) != 0:
             params["Weights"] = [1, -1] + [0] * (n - 2)
+    if rng.random() < 0.1:
+        params["Metadata"] = {"DisplayName": "Layer %d" % rng.randint(1, 9), "Description": "documentation only"}    # optional on every command
     order = list(range(n))
     rng.shuffle(order)
     case = {"kind": "value", "cmd": cmd, "inputs": ins, "params": params, "order": order}
@@ -135,11 +137,10 @@ def run_case(ctx, case):
         ctx.count("repeated_field_cases")
     n = len(inputs)
     ctx.feature(("value", cmd, n, bool(refs), _dtype_class(case["inputs"]), tuple(sorted(set("m" if s["mask"] and any(s["mask"]) else "-" for s in case["inputs"]))),
-                 tuple(type(w).__name__ for w in params.get("Weights", []))))
-    out, _ = arr.run_cmd(cmd, inputs, params, refs=refs)
-    fcols = [arr.frac_cells(a) for a in inputs]
-    if refs:
-        fcols = [fcols[i] for i in refs]
+                 tuple(type(w).__name__ for w in params.get("Weights", [])), "Metadata" in params))
+    fcols0 = [arr.frac_cells(a) for a in inputs]        # what the inputs hold before anything ran on them
+    fcols = [fcols0[i] for i in refs] if refs else fcols0
+    out, prog0 = arr.run_cmd(cmd, inputs, params, refs=refs)
     tclass = "first-" + _dtype_class(case["inputs"])[:1] + ("-mixed" if len(set(_dtype_class(case["inputs"]))) > 1 else "-uniform")
     try:
         want, scale = ref.MODELS[cmd](fcols, params)
@@ -188,9 +189,23 @@ def run_case(ctx, case):
                                                               "got": g, "want": w, "params": params, "result_type": type(res).__name__})
                 elif len(ctx.samples) < 4:
                     ctx.sample({"cmd": cmd, "params": params, "inputs": [arr.describe(a, 6) for a in inputs], "result": arr.describe(res, 6)})
-    # order metamorphic: same outcome class and (tolerantly) same values for a permutation of the inputs
     order = case["order"]
     small_ints = any(s["dtype"] in ("int16", "int32") for s in case["inputs"])   # partial results may overflow in one order only
+    # a later command over the same fields (Sum of all of them) still sees what they held: the command under test computed
+    # from its inputs, it did not consume them
+    if out.ok and not small_ints and want is not None:
+        ctx.count("later_command_checks")
+        names = [arr.STANDIN_NAMES[i] if i < len(arr.STANDIN_NAMES) else "In%d" % i for i in range(n)]
+        later = arr.invoke(prog0, "Sum", "Later", {"InFieldNames": names})
+        lwant, lscale = ref.MODELS["Sum"](fcols0, {})
+        if not later.ok:
+            ctx.fail("%s:later-Sum-over-its-inputs-raises-%s" % (cmd, later.inner() or later.err), {"params": params})
+        else:
+            f32 = any(s["dtype"] == "float32" for s in case["inputs"])
+            bad = ref.compare(later.value, lwant, scale=lscale, rel=1e-5 if f32 else 1e-12)
+            if bad:
+                ctx.fail("%s:later-Sum-over-its-inputs-differs:%s" % (cmd, bad[0]), {"cell": bad[1], "got": bad[2], "want": bad[3], "params": params})
+    # order metamorphic: same outcome class and (tolerantly) same values for a permutation of the inputs
     if cmd in COMMUTATIVE and n > 1 and order != sorted(order) and not refs and not small_ints:
         ctx.count("order_checks")
         pin = [inputs[i] for i in order]
